@@ -69,6 +69,13 @@ func (d *uintDecoder) decodeStreamByte(s *Stream) ([]byte, error) {
 			continue
 		case '0':
 			s.cursor++
+			if s.char() == nul {
+				s.read()
+			}
+			if isNumberContinuation(s.char()) {
+				// 01, 0.5 or 0e1: not an integer literal
+				return nil, d.typeError([]byte{'0', s.char()}, s.totalOffset())
+			}
 			return numZeroBuf, nil
 		case '1', '2', '3', '4', '5', '6', '7', '8', '9':
 			start := s.cursor
@@ -85,6 +92,10 @@ func (d *uintDecoder) decodeStreamByte(s *Stream) ([]byte, error) {
 				break
 			}
 			num := s.buf[start:s.cursor]
+			if isNumberContinuation(s.char()) {
+				// 3.25 or 1e2: a number, but not an integer
+				return nil, d.typeError(num, s.totalOffset())
+			}
 			return num, nil
 		case 'n':
 			if err := nullBytes(s); err != nil {
